@@ -72,7 +72,8 @@ SPECS["C20"] = {
                      "lengthless_source", "wrong_total", "out_of_order_completion", "straggler", "exact_tie",
                      "more_workers_than_chunks", "empty_input", "chunk_larger_than_input", "single_worker",
                      "isplit_sweep_row", "sort_with_ties", "worker_process_killed", "task_raised",
-                     "pmap_call_after_a_failed_one", "earlier_pmap_calls_in_the_same_process", "sort_failed_half_way"],
+                     "pmap_call_after_a_failed_one", "earlier_pmap_calls_in_the_same_process", "sort_failed_half_way",
+                     "items_as_one_shot_iterable", "items_as_tuple"],
     "manifest": {
         "design_ref": "3.6",
         "level_text": ("seeded search over (a) option sets x instrumented iterables x scripted clocks (stalls, "
@@ -125,14 +126,17 @@ SPECS["C01"] = _rec(
      "through several others; perturbations: stale bytes or a longer file of the other form already at the path, "
      "overwrite, a live reader object re-opened on another file, tables larger than the stdio buffer; one long-lived "
      "SFile/Recfile object per caller re-open()ed for every file it writes or reads; header dicts that were read from an "
-     "earlier file (reserved keys included); every header dict handed back is edited in place by the caller; 4% of the "
+     "earlier file (reserved keys included); every header dict handed back is edited in place by the caller; an eighth of "
+     "the tables reach the file in 2-3 blocks through one writer object and 8% are taken up again through one r+ object that "
+     "adds rows and reads them back itself, either of which may be released without close(); 4% of the "
      "tables are size coincidences (rows of 2**m bytes, 2**k rows, up to 64 KiB and rarely 16 MiB). Non-trivial = at "
      "least one perturbation fired; distinct = distinct event-log digests among those"),
     ["create_over_stale_bytes", "overwrite", "path_held_other_form", "object_reopened_on_other_file",
      "table_larger_than_stdio_buffer", "interleaved_callers", "nonzero_offset", "long_lived_object_reopened",
      "header_dict_read_from_an_earlier_file", "caller_edited_a_header_dict_it_was_handed",
      "caller_edited_a_result_in_place", "file_names_expanded_by_esutil_var", "file_names_expanded_by_esutil_home",
-     "caller_refilled_its_work_buffer_after_a_write", "header_end_aligned_to_a_block_boundary"],
+     "caller_refilled_its_work_buffer_after_a_write", "header_end_aligned_to_a_block_boundary",
+     "writer_dropped_without_close", "several_writes_on_one_handle", "reopen_for_append"],
     ("seeded search over dtypes x values x headers x entry points x prior path contents x caller interleavings; every read "
      "is compared bit-for-bit with the written table and the file's bytes are parsed independently after every write. "
      "Sampling, not proof."),
@@ -142,13 +146,16 @@ SPECS["C04"] = _rec(
     "C04", 25000, 2000000,
     ("as C01 for delimited text (delimiters , : tab space ; |), integer/float/byte-string fields in either byte order; the "
      "text is additionally tokenised by an independent parser; a quarter of the tables reach the file in 2-3 blocks through "
-     "one writer handle (later blocks in either byte order), a fifth get an append by reopening; size coincidences are "
+     "one writer handle (later blocks in either byte order), a fifth get an append by reopening, 15% are taken up again "
+     "through one r+ object that adds rows and reads them back itself; writer objects may be released without close(); "
+     "size coincidences are "
      "rows of 2**m characters. Non-trivial = at least one perturbation fired"),
     ["create_over_stale_bytes", "overwrite", "path_held_other_form", "object_reopened_on_other_file",
      "table_larger_than_stdio_buffer", "interleaved_callers", "long_lived_object_reopened",
      "header_dict_read_from_an_earlier_file", "several_writes_on_one_handle", "reopen_for_append",
      "caller_edited_a_result_in_place", "file_names_expanded_by_esutil_var",
-     "caller_refilled_its_work_buffer_after_a_write", "header_end_aligned_to_a_block_boundary"],
+     "caller_refilled_its_work_buffer_after_a_write", "header_end_aligned_to_a_block_boundary",
+     "writer_dropped_without_close"],
     ("seeded search as C01; values are compared exactly for integers and strings and to 16/7 significant digits for floats, "
      "NaN/inf preserved; independent tokenisation of the file's text. Sampling, not proof."),
     "working file system; magnitudes within 1e-14 (f8) / 1e-5 (f4) of the largest finite value are not generated (their "
@@ -176,14 +183,17 @@ SPECS["C03"] = _rec(
     ("one run = 1-3 callers, each running a history of 3-12 operations over {create, open writer (w / r+), write again on "
      "the same handle, close, append by reopening (sfile.write/io.write append=True, SFile r+, Recfile r+), append to a "
      "missing path, incompatible append (35% offered a second time, the very same array), overwrite, read-back (also "
-     "through the r+ handle), header} on one or two paths, binary and text; long-lived re-open()ed objects; 3% of the "
+     "through the r+ handle), header} on one or two paths, binary and text; a fifth of the writer objects are released "
+     "without close(); a fifth of the appends to an existing sfile pass a delim= keyword that differs from the file's "
+     "(documented as ignored); long-lived re-open()ed objects; 3% of the "
      "paths use size-coincidence chunks (2**k rows of 2**m bytes, rarely 16 MiB). Non-trivial = at least one "
      "perturbation fired"),
     ["append_to_missing_file", "reopen_for_append", "incompatible_append", "several_writes_on_one_handle",
      "close_after_writes", "overwrite", "create_over_stale_bytes", "interleaved_callers",
      "chunk_handed_over_as_2d_array", "file_names_expanded_by_esutil_home", "caller_edited_a_result_in_place",
      "file_names_expanded_by_esutil_mixed", "empty_chunk_written_through_a_handle",
-     "caller_refilled_its_work_buffer_after_a_write"],
+     "caller_refilled_its_work_buffer_after_a_write", "writer_dropped_without_close",
+     "append_with_other_delim_keyword"],
     ("seeded search over operation histories; the model is the list of accepted chunks; after every mutating step with no "
      "writer open the file's bytes are parsed independently (SIZE line, END, rows x itemsize bytes or rows lines) and "
      "every read-back is compared with the concatenation. Sampling, not proof."),
